@@ -39,9 +39,10 @@ DevOptions(p) ==
   (IF "dir" \in DevTypes THEN {[t |-> "dir", s |-> k, x |-> d, y |-> ""] : k \in Idx(p), d \in {"ignore", "start", "end"}} ELSE {}) \cup
   (IF "semi" \in DevTypes THEN {[t |-> "semi", s |-> k, x |-> "", y |-> ""] : k \in Idx(p)} ELSE {}) \cup
   (IF "cmt" \in DevTypes THEN {[t |-> "cmt", s |-> k, x |-> "after", y |-> ""] : k \in Idx(p)} ELSE {}) \cup
+  (IF "mline" \in DevTypes THEN {[t |-> "mline", s |-> k, x |-> "", y |-> ""] : k \in {j \in Idx(p) : p[j].k = "R"}} ELSE {}) \cup
   (IF "range" \in DevTypes THEN {[t |-> "range", s |-> 0, x |-> a, y |-> b] : a \in StartMarks(p), b \in EndMarks(p)} \ {[t |-> "range", s |-> 0, x |-> "none", y |-> "none"]} ELSE {})
 
-TypeRank(t) == CASE t = "sep" -> 1 [] t = "dir" -> 2 [] t = "semi" -> 3 [] t = "cmt" -> 4 [] t = "range" -> 5
+TypeRank(t) == CASE t = "sep" -> 1 [] t = "dir" -> 2 [] t = "semi" -> 3 [] t = "cmt" -> 4 [] t = "mline" -> 5 [] t = "range" -> 6
 XRank(x) == CASE x = "blank" -> 1 [] x = "comment" -> 2 [] x = "ignore" -> 1 [] x = "start" -> 2 [] x = "end" -> 3 [] OTHER -> 0
 Rank(d) == TypeRank(d.t) * 1000 + d.s * 10 + XRank(d.x)
 
@@ -63,6 +64,9 @@ Comments ==
                   [] d.t = "sep" /\ d.x = "comment" -> <<[before_stmt |-> d.s - 1, kind |-> "ownlinec", text |-> " note", slot |-> 0]>>
                   [] d.t = "sep" /\ d.x = "blank" -> <<[before_stmt |-> d.s - 1, kind |-> "blankline", text |-> "", slot |-> 0]>>
                   [] d.t = "cmt" -> <<[after_stmt |-> d.s - 1, kind |-> "line", text |-> " tc", slot |-> 0]>>
+                  \* `local a = require(` NEWLINE `"m"` NEWLINE `)`: tokens 5 and 6 of the statement start a new line
+                  [] d.t = "mline" -> <<[before_stmt |-> d.s - 1, offset |-> 5, kind |-> "newline", text |-> "", slot |-> 0],
+                                       [before_stmt |-> d.s - 1, offset |-> 6, kind |-> "newline", text |-> "", slot |-> 0]>>
                   [] OTHER -> <<>>
       RECURSIVE all(_)
       all(i) == IF i > Len(devs) THEN <<>> ELSE one(devs[i]) \o all(i + 1)
